@@ -539,7 +539,7 @@ def _special_cases(rng, all_mn):
 
 def correspond(ctx):
     rng = ctx.rng
-    cases = _special_cases(rng, ctx.thorough) + _case_list(ctx, rng, ctx.n(3, 12), ctx.n(1, 2))
+    cases = _special_cases(rng, ctx.thorough) + _case_list(ctx, rng, ctx.n(2, 12), ctx.n(1, 2))
     ncfg = ctx.n(2, 5)
     stats = {'cells': 0, 'cells_valid': 0, 'cells_refused': 0, 'mono': 0, 'array': 0, 'refusals': 0, 'solver_refused': 0,
              'exempt_near': 0}
@@ -1600,7 +1600,7 @@ def _search_case(ctx, case, raw, ncfg, stats):
 def search(ctx, broken):
     rng = ctx.rng
     big = broken or ctx.thorough
-    cases = _special_cases(rng, True) + _case_list(ctx, rng, 10 if big else 4, 2 if big else 1)
+    cases = _special_cases(rng, True) + _case_list(ctx, rng, 10 if big else 3, 2 if big else 1)
     # every m/n assignment for a sample of the generated systems
     extra = []
     for c in cases[len(SPECIAL) * 6:][:: (2 if big else 4)]:
